@@ -65,9 +65,9 @@ func VerifC02FieldIndex() {
 func VerifC02SetSpecialStr() {
 	idx := verifIntRange(1, ast.V_LAST)
 	p := &interp{fieldSep: " ", savedFieldSep: " ", recordSep: "\n", convertFormat: "%.6g", outputFieldSep: " "}
-	maxLen := verifBound(1, 2)
+	maxLen := verifBound(1, 1) // two bytes for every special variable did not finish in an hour
 	if idx == ast.V_RS || idx == ast.V_FS {
-		maxLen = verifBound(2, 3) // the two variables whose value is compiled as a regular expression
+		maxLen = verifBound(2, 2) // the two variables whose value is compiled as a regular expression (3 bytes did not finish in an hour)
 	}
 	v := str(verifString(verifIntRange(0, maxLen)))
 	if (idx == ast.V_RS || idx == ast.V_FS) && verifIntRange(0, 1) == 1 {
